@@ -303,6 +303,7 @@ def run(ck):
     segment_rules(ck, c, rc, rtab)
     pstack_rules(ck, c, hf, hsw, onames)
     misc_arm_rules(ck, c, rc, rtab, hf)
+    who_rules(ck, c)
 
 
 # memory instructions (WebAssembly 1.0, 4.4.4): N bits are read at ea = base (u32) + offset (u32) as a 33-bit sum, trap if
@@ -910,3 +911,38 @@ def misc_arm_rules(ck, c, rc, rtab, hf):
         ck.ob("ENF", vf.path, "handler-finish-is-the-result", ok, "the outcome is what the handler's finish returns", vf.loc())
         n += 2
     ck.floor("TAB", "eqz/grow/copy/driver obligations", n, 7)
+
+
+def who_rules(ck, c):
+    """the providers stack is changed only through its own operations (which keep the pool of reusable registers in step
+    with the stack); the one documented exception rewrites slots in place while preserving a local (LocalSet/LocalTee)"""
+    sites = []
+    for p in sorted(c.paths()):
+        if re.search(r"artifact::ProvidersStack::", p):
+            continue
+        for b in c.get_all(p):
+            f = Fn(b)
+            for bi in f.reachable():
+                for s in f.stmts(bi):
+                    rv = s.get("rv", {})
+                    pl = None
+                    if rv.get("k") == "ref" and rv.get("mut"):
+                        pl = rv["p"]
+                    elif "lhs" in s and s["lhs"][1]:
+                        pl = s["lhs"]
+                    if pl and any(str(x).endswith(":stack") for x in pl[1]) and any(str(x).endswith(":providers_stack") for x in pl[1]):
+                        # how is the borrowed vector used?
+                        uses = []
+                        fw = f.forward({s["lhs"][0]}) if "lhs" in s else set()
+                        for (b2, t2) in f.calls():
+                            if any((op_place(a) or [None])[0] in fw for a in t2["args"]):
+                                uses.append(t2["f"].get("path", "?").split("::")[-1])
+                        sites.append((p, bi, uses, f))
+    ok_all = True
+    for (p, bi, uses, f) in sites:
+        ok = bool(uses) and all(u in ("iter_mut", "deref_mut", "into_iter", "next", "len", "deref") for u in uses)
+        ok_all = ok_all and ok
+        ck.ob("WHO", p, "providers-stack-touched-directly@bb%d" % bi, ok,
+              "slots are rewritten in place (iteration), the height and the register pool are untouched" if ok else
+              "the providers stack is modified directly (%s) outside ProvidersStack: the pool of reusable registers is not updated with it" % uses, f.loc(bi))
+    ck.ob("WHO", "ProvidersStack.stack", "direct-mutable-accesses", len(sites) <= 1, "%d mutable accesses outside ProvidersStack (the LocalSet/LocalTee preservation loop)" % len(sites), "", nontrivial=False)
